@@ -556,14 +556,16 @@ class World:
         if h in self.T:
             return self._skip("dup")
         data = dec_arr(ev["arr"])
+        if ev.get("order") == "F":
+            data = np.asfortranarray(data)
         c = ev.get("constant")
         fl = is_float(data.dtype)
         expect_fail = (not fl) and c is False and self.tracking
         try:
             if ev.get("via") == "Tensor":
-                t = Tensor(data.copy(), constant=c)
+                t = Tensor(np.array(data, copy=True, order="K"), constant=c)
             else:
-                t = mg.tensor(data.copy(), constant=c)
+                t = mg.tensor(np.array(data, copy=True, order="K"), constant=c)
         except Exception as e:
             st = "fail" if expect_fail else "unexp"
             return Outcome(st, type(e).__name__, str(e)[:200], expected_fail=expect_fail)
@@ -571,7 +573,7 @@ class World:
             del t
             return Outcome("nofail")
         self.T[h] = t
-        self.S[h] = data.copy()
+        self.S[h] = np.array(data, copy=True, order="K")
         const = c if c is not None else (not fl)
         nid = self.tape.leaf(data, const)
         self._new_tinfo(h, t, const, nid)
@@ -1114,6 +1116,7 @@ class World:
             "status": None,
             "pre_grads": {},
             "pre_ids": {k for k, i in self.info.items() if i.ids is not None},
+            "pre_severed": {k for k, i in self.info.items() if self.tape.nodes[i.nid].severed},
             "pre_member_ids": {k: i.ids for k, i in self.info.items() if i.ids is not None and not i.foreign and not i.stale},
         }
         for k, tt in self.T.items():
